@@ -102,6 +102,14 @@ CHECKS["C07"] = dict(
     ref="C07",
 )
 
+CHECKS["C10"] = dict(
+    technique="Coq proof (induction over the visit sequence) that a run of checks with private state satisfies run(filter sel) = filter(run), with the hypotheses discharged from an effect summary translated from every check module; fresh-process selection runs (singletons, complements, subsets; enable/disable/ignore) against the full run",
+    category="proof",
+    text="Partial. Lib/Run.v proves for every visit sequence, every list of checks (each a function of the node and its own state) and every selection that running the selected checks alone yields exactly the selected diagnostics of the full run, in order. That the real checks fit this model is an effect summary regenerated from source on each run (module-level objects mutated, attributes of non-local objects assigned, uses of the shared error list, names imported from other check modules) decided against a hand-reviewed allow-list by vm_compute; a new cross-module global, a write into the AST or a read of the error list breaks effects_admissible. The dynamic soundness of that static summary is not provable; the property itself is executed: every chosen selection is run in a fresh process and compared with the filtered full run.",
+    note="Trusted: Coq kernel; effects translator and its allow-list (FURB120); run model. Static summary vs dynamic behaviour: execution only.",
+    ref="C10",
+)
+
 NOT_APPLICABLE = {}
 
 
